@@ -54,7 +54,21 @@ def setup_symbolic():
     kernel = clone(NA.seq_to_kmer_indices.py_func, {"coord_to_index": NA.coord_to_index.py_func})
     disp = NA.KmerAlphabet.__dict__["to_indices"].dispatcher
     impl = disp.registry[numpy.ndarray]
-    disp.register(numpy.ndarray, clone(impl, {"numpy": shim, "seq_to_kmer_indices": kernel}))
+    _PATCH["disp"], _PATCH["real"], _PATCH["symbolic"] = disp, impl, clone(impl, {"numpy": shim, "seq_to_kmer_indices": kernel})
+    _use_symbolic_kernel(True)
+
+
+_PATCH = {}
+
+
+def _use_symbolic_kernel(on):
+    """the object-dtype clone of KmerAlphabet.to_indices is only for the harnesses that feed it symbolic codes; the entry-point
+    harnesses (get_translation) run the unmodified registration (one worker process serves several obligations)"""
+    import numpy
+
+    if _PATCH and _PATCH.get("on") != on:
+        _PATCH["disp"].register(numpy.ndarray, _PATCH["symbolic"] if on else _PATCH["real"])
+        _PATCH["on"] = on
 
 
 class _AA(list):
@@ -94,6 +108,7 @@ def mk_frames(code_id, n, start, rc, mode):
         post: _
         """
         bases = [b0, b1, b2, b3, b4, b5, b6, b7, b8][:n]
+        _use_symbolic_kernel(True)
         if W.PLAIN:
             gc = G.get_code(code_id)
             text = "".join(NCBI_ORDER[b] for b in bases)
@@ -136,6 +151,7 @@ def mk_kmer_kernel(n):
 
         gc = G.get_code(1)
         bases = [b0, b1, b2, b3, b4, b5][:n]
+        _use_symbolic_kernel(True)
         if W.PLAIN:
             seq = numpy.array(bases, dtype=numpy.uint8)
         else:
@@ -373,8 +389,15 @@ def mk_translation_api(code_id, api, style, include_stop=False):
         import cogent3
 
         _ = (ncbi, new_type)
+        _use_symbolic_kernel(False)
         codon = "TCAG"[a] + "TCAG"[b] + "TCAG"[c]
         seq = "ATGCCA" + codon
+        if not W.PLAIN:
+            # the sequence constructors hand the text to C-level translate / numpy at once: realise it here (CrossHair forks on the
+            # realised value, the 64 codons are still exhausted) instead of ~12 solver decisions per codon inside the string proxies
+            from crosshair import deep_realize
+
+            seq = deep_realize(seq)
         aa = ncbi[16 * a + 4 * b + c]
         kw = {"include_stop": True} if include_stop else {}
         if api == "seq":
@@ -409,7 +432,7 @@ BOUNDS = {
     "quick": ["all 27 NCBI codes: every codon over {T,C,A,G,-,?} (finite domain, symbolic codon)", "frames: sequences of 0..9 symbolic canonical bases (length is a shard key), start in {0,1,2}, both strands, codes 1 and 2",
               "k-mer kernel: <= 6 symbolic monomer codes over {T,C,A,G,-,?}", "index width: one representative sequence length per dtype class of the index array (1, 256, 65536 codons)", "complement / ambiguity tables: every IUPAC symbol of DNA and RNA, old and new moltypes"],
 }
-BOUNDS["quick"].append("get_translation of Sequence / SequenceCollection / Alignment (old and new style): 'ATGCCA' + one symbolic final codon over {T,C,A,G}, codes 1, 2, 6, 14 (all 27 in thorough); include_stop for code 2")
+BOUNDS["quick"].append("get_translation of Sequence / SequenceCollection / Alignment (old and new style): 'ATGCCA' + one symbolic final codon over {T,C,A,G}, codes 2 and 6 (all 27 in thorough); include_stop for code 2")
 BOUNDS["thorough"] = ["as quick, frames for codes 1, 2, 4, 11; get_translation entry points for all 27 codes"]
 ASSUMPTIONS = [
     "the byte-level translate call (bytes.translate, C) is replaced by the 66-entry table extracted this run from the real converter; the k-mer kernel is run through its .py_func (numba compilation trusted); numpy.zeros in new_alphabet rebound to an object-array allocator",
@@ -441,14 +464,16 @@ def obligations(tier):
                 obs.append(Ob(f"frames/code{cid}/n{n}/start{start}/rc_same_frame_set", __name__, "mk_frames", {"code_id": cid, "n": n, "start": start, "rc": True, "mode": "rc_same_frame_set"}, timeout=900, twins=("end",), group="frames"))
                 if cid == 1 and n in (6, 7, 8) and start == 1:
                     obs.append(Ob(f"frames/code{cid}/n{n}/start{start}/rc_documented", __name__, "mk_frames", {"code_id": cid, "n": n, "start": start, "rc": True, "mode": "rc_documented"}, timeout=900, twins=("end",), group="frames", expect_known=KNOWN_KEY))
-    # codes whose stop sets differ: 1 standard; 2 TGA->W, AGA/AGG stop; 6 TAA/TAG->Q; 14 TAA->Y
-    for cid in ([c[1] for c in G.code_mapping] if T else (1, 2, 6, 14)):
+    # codes whose stop sets differ from the standard code: 2 (TGA->W, AGA/AGG stop), 6 (TAA/TAG->Q); thorough: all 27
+    # (~0.8 s per codon under tracing: Sequence construction + get_translation; 64 codons per run)
+    for cid in ([c[1] for c in G.code_mapping] if T else (2, 6)):
         for style in ("old", "new"):
             for api in ("seq", "coll", "aln"):
-                obs.append(Ob(f"translation_api/{style}/{api}/code{cid}", __name__, "mk_translation_api", {"code_id": cid, "api": api, "style": style}, timeout=1800, twins=("end", "stop"), group="api"))
+                obs.append(Ob(f"translation_api/{style}/{api}/code{cid}", __name__, "mk_translation_api", {"code_id": cid, "api": api, "style": style}, timeout=1800,
+                              twins=("end", "stop") if cid == 2 else ("end",), group="api"))
     for style in ("old", "new"):
-        for api in ("seq", "coll", "aln"):
-            obs.append(Ob(f"translation_api/{style}/{api}/code2/include_stop", __name__, "mk_translation_api", {"code_id": 2, "api": api, "style": style, "include_stop": True}, timeout=1800, twins=("end", "stop"), group="api"))
+        for api in (("seq", "coll", "aln") if T else ("coll",)):
+            obs.append(Ob(f"translation_api/{style}/{api}/code2/include_stop", __name__, "mk_translation_api", {"code_id": 2, "api": api, "style": style, "include_stop": True}, timeout=1800, twins=("end",), group="api"))
     obs.append(Ob("translate_index_width", __name__, "mk_index_width", {}, kind="direct", timeout=600, group="frames"))
     for n in (3, 6):
         obs.append(Ob(f"kmer_kernel/n{n}", __name__, "mk_kmer_kernel", {"n": n}, timeout=900, group="kernel"))
